@@ -89,6 +89,7 @@ Rej(fams) == [ok |-> FALSE, rej |-> fams]
 
 \* expectation records handed to the conformance layer
 ExpRej(fams) == [rej |-> fams]
+ExpAny == [any |-> TRUE]
 \* does an observed outcome `o` satisfy expectation `x` ?
 \*   x = [rej |-> <<f1,..>>]   : o must be [exc |-> f] with f among the families
 \*   x = [anyof |-> <<x1,..>>] : o must match one of the plain alternatives
@@ -96,7 +97,9 @@ ExpRej(fams) == [rej |-> fams]
 MatchPlain(x, o) == IF "rej" \in DOMAIN x
                     THEN "exc" \in DOMAIN o /\ \E i \in DOMAIN x.rej : (x.rej[i] = o.exc \/ x.rej[i] = "*")
                     ELSE x = o
-Matches(x, o) == IF "anyof" \in DOMAIN x
+\*   x = [any |-> TRUE]        : unjudged - every outcome is acceptable
+Matches(x, o) == IF "any" \in DOMAIN x THEN TRUE
+                 ELSE IF "anyof" \in DOMAIN x
                  THEN \E i \in DOMAIN x.anyof : MatchPlain(x.anyof[i], o)
                  ELSE MatchPlain(x, o)
 
